@@ -903,7 +903,9 @@ func validateDisclosures(vcBytes []byte, disclosures []string) error {
 	}
 
 	if _, hasSDAlg := vcPayload.Payload["_sd_alg"]; !hasSDAlg {
-		subjSDAlg, hasSubjSDAlg := vcPayload.Payload["credentialSubject"].(map[string]interface{})["_sd_alg"]
+		subject, _ := vcPayload.Payload["credentialSubject"].(map[string]interface{}) //nolint:errcheck
+
+		subjSDAlg, hasSubjSDAlg := subject["_sd_alg"]
 		if hasSubjSDAlg {
 			vcPayload.Payload["_sd_alg"] = subjSDAlg
 		}
